@@ -64,7 +64,7 @@ CHECKS = {
         text="Transpose and rstrip are exact functions, optimize_width a relation (+ idempotence), CSV a value equality in Grid.tla; the "
         "algebraic laws are invariants checked exhaustively by TLC on GridMC.tla and Span.tla (set_span/del_span: inverse pair, covers exactly the "
         "area, refuses overlap, values kept unless merge, no orphan covered cell). Dumped transitions of both models are replayed on real tables in "
-        "3 encodings; transformation-heavy random histories and odfdo-table-shrink runs are validated by TLC.",
+        "3 encodings; transformation-heavy random histories and odfdo-table-shrink runs are validated by TLC. Also: transpose(coord) as the operator TransposeArea with its involution law, cells holding text without a value type (never stripped).",
         ref="DESIGN.md section 4 C17",
         technique="TLC exhaustive law checking + transition replay (MBT) + TLC trace validation",
         note=TABLE_NOTE + " Involution is on the populated matrix; set_span on areas leaving the table is unspecified.",
@@ -73,7 +73,7 @@ CHECKS = {
         text="Coord.tla: the coded base-26 conversions are checked by TLC against the short-lex successor characterisation for 0..20000 and the "
         "table is replayed both ways into the code; the named-range address writer/parser pair is specified and its round trip checked over all "
         "names up to the bound, each name replayed (write, serialise, parse, and code-parser on the spec-written ODF address, table rename). "
-        "CoordTrace.tla: 9 read methods x up to 5 coordinate forms, every answer compared by TLC with the answer for the abstract area. Also: iter_values under every form, padded new table names.",
+        "CoordTrace.tla: 9 read methods x up to 5 coordinate forms, every answer compared by TLC with the answer for the abstract area. Also: iter_values under every form, padded new table names, the flat= / style= / cell_type= / complete= keyword forms of the reads.",
         ref="DESIGN.md section 4 C19",
         technique="TLC-enumerated tables replayed into the code + TLC trace validation of reads under every coordinate form",
         note=TABLE_NOTE,
@@ -82,7 +82,7 @@ CHECKS = {
         text="PackageMC.tla (implementation-shaped: lazily read parts, parsed-part cache, manifest as bytes/parsed) is checked exhaustively "
         "by TLC against the caller's belief (SaveFaithful, MemoryIsBelief); PackageTrace.tla validates recorded histories of real documents "
         "(templates, all samples; path/BytesIO/folder; DOM edits through old and fresh handles, set_part, add_file, del_part; zip/folder/flat "
-        "saves; reopen; clone): after each save the target is read with zipfile/os.walk+lxml only and compared with the model's belief.",
+        "saves; reopen; clone): after each save the target is read with zipfile/os.walk+lxml only and compared with the model's belief. Also: merge_styles_from with picture parts, the declared document type changed on the way (16 types x packagings), one BytesIO saved again and again, every sample exported to flat XML straight after opening.",
         ref="DESIGN.md section 4 C03",
         technique="TLC exhaustive check of the impl-shaped package design + TLC trace validation of recorded save/reopen histories",
         note=PKG_NOTE,
@@ -118,7 +118,7 @@ CHECKS = {
     "C15": dict(
         text="PackageTrace.tla op 'pure': about 1400 introspected + curated read-only entry points called twice in random order on templates, "
         "samples and generated documents; TLC requires every part identifier (content, styles, meta, settings, manifest) unchanged and the "
-        "second answer equal to the first. Also: every curated call on several objects of each kind, ranged reads from every start position, a generated spreadsheet parsed from bytes (outlines, non-canonical named ranges).",
+        "second answer equal to the first. Also: every curated call on several objects of each kind, ranged reads from every start position, a generated spreadsheet parsed from bytes (outlines, non-canonical named ranges), questions about what lies at / beyond the end of a table, the reads made inside package histories (a deleted part asked for stays absent).",
         ref="DESIGN.md section 4 C15",
         technique="TLC trace validation of read-only calls (stuttering requirement on the package model)",
         note=PKG_NOTE + " Read-only classification is by name/docstring, kept in harness/pure_driver.py.",
@@ -140,14 +140,14 @@ CHECKS = {
         text="Markup.tla: token model of paragraph content; transcription of the _by_regex_offset decorator, Element._insert, strip_tags, delete; "
         "MarkupMC.tla checks TextPreserved, WrapsDesignated, NoMatchNoChange, RemovalKeepsOutside for all small layouts x offsets x lengths x "
         "literal patterns x sequences of insertions; every dumped transition and random histories on API-built paragraphs are validated by "
-        "TLC (MarkupTrace.tla) against the operators and the clauses. Also: (start, end) and content= ranges for bookmarks, reference marks and annotations, notes, marks after an annotation, the documented pair deletions, paragraphs attached to a document; the markup calls of the repository's own tests validated through an external tracing plugin.",
+        "TLC (MarkupTrace.tla) against the operators and the clauses. Also: (start, end) and content= ranges for bookmarks, reference marks and annotations, notes, marks after an annotation, the documented pair deletions, paragraphs attached to a document; the markup calls of the repository's own tests validated through an external tracing plugin; negative occurrence numbers / positions, content=<element>, removals called on an inline element itself.",
         ref="DESIGN.md section 4 C09", technique="TLA+ transcription + TLC exhaustive model check, transitions replayed as traces, TLC trace validation",
         note=TEXT_NOTE + " Regex engine trusted (literal patterns); offsets count character data in document order."),
     "C12": dict(
         text="Registry.tla on RegistryData.tla generated at run time from the working tree (every register call by AST, own tags, PropDef "
         "properties): tag clashes, own-tag dispatch, duplicated properties, generic property codec; RegistryTrace.tla validates one record per "
         "instance of every registered class built with generated constructor arguments: same class after re-parse and through 6 access paths, "
-        "equal infoset (C14N), properties equal after re-parse, constructor arguments visible, property set/get. Also: integer, string and element-valued constructor arguments readable through the property of their name, mixed content, the same instance read inside a document next to another one, four-sided argument groups, no answer kept from before an assignment.",
+        "equal infoset (C14N), properties equal after re-parse, constructor arguments visible, property set/get. Also: integer, string and element-valued constructor arguments readable through the property of their name, mixed content, the same instance read inside a document next to another one, four-sided argument groups, no answer kept from before an assignment, arguments whose values are an enumeration of the standard.",
         ref="DESIGN.md section 4 C12", technique="TLC check on source-extracted registry data + TLC trace validation of generated instances",
         note="Trusted: TLC, lxml C14N, the type-directed argument generator (harness/registry_lib.py); arguments a constructor rejects are dropped."),
     "C13": dict(
